@@ -25,35 +25,36 @@ struct Par {
   const char* name; double a, f, k0;
   bool series_doc;      // series accuracy documented ("5 nm within 35 deg"; full accuracy for |f| <= 0.01 is stated without a figure)
   bool exact;           // TransverseMercatorExact admissible (f > 0)
-  bool quick;
+  int quick;            // 0: thorough only; 1: full quick lattice; 2: quick on the reduced sub-lattice, series implementation only
   bool utm;             // the static UTM() instances have these parameters
-  // series outside its documented accuracy domain: calibrated envelope of the ground-distance error (metres, for a = WGS84 a) in the bands
-  // of distance from the (anti)central meridian  <= 35, <= 50, <= 60, <= 70, <= (1-2|e|)90 ; each >= 4 x worst observed on the unchanged tree
-  double env[5];
+  // series outside its documented accuracy domain: calibrated envelope of the ground-distance error (metres, for a = WGS84 a) in the bands of distance
+  // from the (anti)central meridian  <= 3, <= 10, <= 20, <= 35, <= 50, <= 60, <= 70, <= (1-2|e|)90 ; each >= 4 x worst observed on the unchanged tree
+  // (0 = the documented 10 nm applies)
+  double env[8];
 };
-static const double BIG = 1e30;
+#define WGSENV {0, 0, 0, 0, 4e-7, 2.5e-5, 7e-3, 0.35}
 static const Par PARS[] = {
-  {"WGS84/0.9996", WGS84_A, WGS84_F, 0.9996, true, true, true, true, {0, 4e-7, 2.5e-5, 7e-3, 0.35}},
-  {"WGS84/1", WGS84_A, WGS84_F, 1.0, true, true, true, false, {0, 4e-7, 2.5e-5, 7e-3, 0.35}},
-  {"sphere-a1", 1.0, 0.0, 1.0, true, false, true, false, {0, 0, 0, 0, 0}},           // f = 0: the series terminates, documented tolerance everywhere
-  {"Airy/0.9996012717", 6377563.396, 1 / 299.3249646, 0.9996012717, true, true, false, false, {0, 4e-7, 2.5e-5, 7e-3, 0.35}},
-  {"f=1/150,a=1,k0=2", 1.0, 1 / 150.0, 2.0, false, true, false, false, {5e-7, 1e-4, 6e-3, 0.8, 0.8}},
-  {"f=+0.01", WGS84_A, 0.01, 1.0, false, true, false, false, {4e-6, 8e-4, 0.06, 0.5, 0.5}},
-  {"f=-0.01", WGS84_A, -0.01, 1.0, false, false, false, false, {4e-6, 7e-4, 0.05, 0.5, 0.5}},
-  {"f=+0.1", WGS84_A, 0.1, 1.0, false, true, false, false, {0.3, 0.3, 0.3, 0.3, 0.3}},
+  {"WGS84/0.9996", WGS84_A, WGS84_F, 0.9996, true, true, 1, true, WGSENV},
+  {"WGS84/1", WGS84_A, WGS84_F, 1.0, true, true, 1, false, WGSENV},
+  {"sphere-a1", 1.0, 0.0, 1.0, true, false, 1, false, {0, 0, 0, 0, 0, 0, 0, 0}},     // f = 0: the series terminates, documented tolerance everywhere
+  {"Airy/0.9996012717", 6377563.396, 1 / 299.3249646, 0.9996012717, true, true, 0, false, WGSENV},
+  {"f=1/150,a=1,k0=2", 1.0, 1 / 150.0, 2.0, false, true, 0, false, {2.2e-8, 2e-8, 2e-8, 5e-7, 1e-4, 6e-3, 0.8, 0.8}},
+  {"f=+0.01", WGS84_A, 0.01, 1.0, false, true, 2, false, {2.3e-8, 2.7e-8, 9e-8, 4e-6, 8e-4, 0.06, 0.5, 0.5}},
+  {"f=-0.01", WGS84_A, -0.01, 1.0, false, false, 0, false, {3.1e-8, 3.6e-8, 8.1e-8, 4e-6, 7e-4, 0.05, 0.5, 0.5}},
+  {"f=+0.1", WGS84_A, 0.1, 1.0, false, true, 0, false, {0.19, 0.3, 0.3, 0.3, 0.3, 0.3, 0.3, 0.3}},
   // ---- added for the deep thorough tier: further terrestrial ellipsoids and scales (documented accuracy applies), prolate counterparts, intermediate flattenings
-  {"Intl1924/0.9996", 6378388.0, 1 / 297.0, 0.9996, true, true, false, false, {0, 4e-7, 2.5e-5, 7e-3, 0.35}},
-  {"Clarke1866/0.9999", 6378206.4, 1 / 294.9786982, 0.9999, true, true, false, false, {0, 4e-7, 2.5e-5, 7e-3, 0.35}},
-  {"Bessel1841/1", 6377397.155, 1 / 299.1528128, 1.0, true, true, false, false, {0, 4e-7, 2.5e-5, 7e-3, 0.35}},
-  {"Krassovsky/1", 6378245.0, 1 / 298.3, 1.0, true, true, false, false, {0, 4e-7, 2.5e-5, 7e-3, 0.35}},
-  {"GRS80/k0=0.5", 6378137.0, 1 / 298.257222101, 0.5, true, true, false, false, {0, 4e-7, 2.5e-5, 7e-3, 0.35}},
-  {"WGS84/k0=3", WGS84_A, WGS84_F, 3.0, true, true, false, false, {0, 4e-7, 2.5e-5, 7e-3, 0.35}},
-  {"f=+1e-4", WGS84_A, 1e-4, 1.0, true, true, false, false, {0, 4e-7, 2.5e-5, 7e-3, 0.35}},
-  {"f=+0.002", WGS84_A, 0.002, 0.9996, true, true, false, false, {0, 4e-7, 2.5e-5, 7e-3, 0.35}},
-  {"f=-1/298.257", WGS84_A, -WGS84_F, 0.9996, true, false, false, false, {0, 4e-7, 2.5e-5, 7e-3, 0.35}},
-  {"f=-1/150,a=1,k0=2", 1.0, -1 / 150.0, 2.0, false, false, false, false, {5e-7, 1e-4, 6e-3, 0.8, 0.8}},
-  {"f=+0.05", WGS84_A, 0.05, 1.0, false, true, false, false, {BIG, BIG, BIG, BIG, BIG}},
-  {"f=-0.05", WGS84_A, -0.05, 1.0, false, false, false, false, {BIG, BIG, BIG, BIG, BIG}},
+  {"Intl1924/0.9996", 6378388.0, 1 / 297.0, 0.9996, true, true, 0, false, WGSENV},
+  {"Clarke1866/0.9999", 6378206.4, 1 / 294.9786982, 0.9999, true, true, 0, false, WGSENV},
+  {"Bessel1841/1", 6377397.155, 1 / 299.1528128, 1.0, true, true, 0, false, WGSENV},
+  {"Krassovsky/1", 6378245.0, 1 / 298.3, 1.0, true, true, 0, false, WGSENV},
+  {"GRS80/k0=0.5", 6378137.0, 1 / 298.257222101, 0.5, true, true, 0, false, WGSENV},
+  {"WGS84/k0=3", WGS84_A, WGS84_F, 3.0, true, true, 0, false, WGSENV},
+  {"f=+1e-4", WGS84_A, 1e-4, 1.0, true, true, 0, false, WGSENV},
+  {"f=+0.002", WGS84_A, 0.002, 0.9996, true, true, 0, false, WGSENV},
+  {"f=-1/298.257", WGS84_A, -WGS84_F, 0.9996, true, false, 2, false, WGSENV},
+  {"f=-1/150,a=1,k0=2", 1.0, -1 / 150.0, 2.0, false, false, 0, false, {2.2e-8, 2e-8, 2e-8, 5e-7, 1e-4, 6e-3, 0.8, 0.8}},
+  {"f=+0.05", WGS84_A, 0.05, 1.0, false, true, 0, false, {1.3e-3, 2e-3, 6.8e-3, 0.2, 0.2, 0.2, 0.2, 0.2}},
+  {"f=-0.05", WGS84_A, -0.05, 1.0, false, false, 0, false, {1.1e-3, 1.6e-3, 5e-3, 0.2, 0.2, 0.2, 0.2, 0.2}},
 };
 static const int NPAR = sizeof(PARS) / sizeof(PARS[0]);
 
@@ -217,17 +218,16 @@ int main(int argc, char** argv) {
                    177.0, 179.5, 179.9, 179.999999})
     DLONP.push_back({v, 0});
   { std::vector<Val> u; for (auto& x : DLONP) { bool dup = false; for (auto& y : u) if (y.v == x.v) dup = true; if (!dup) u.push_back(x); } DLONP = u; }
-  std::vector<double> LON0 = {0, 177, -183};
-  if (T) LON0.push_back(-3);
+  const std::vector<double> LON0 = {0, 177, -183};
 
   ctx.bound("params", T ? "20 parameter sets: WGS84/0.9996, WGS84/1, sphere a=1, Airy/0.9996012717, Intl1924/0.9996, Clarke1866/0.9999, Bessel1841/1, Krassovsky/1, GRS80/k0=0.5, WGS84/k0=3, f=1e-4, f=0.002, "
-                          "(a=1,f=+-1/150,k0=2), f=+-0.01, f=+-0.05, f=0.1, f=-1/298.257" : "3 parameter sets: WGS84/0.9996, WGS84/1, sphere a=1");
+                          "(a=1,f=+-1/150,k0=2), f=+-0.01, f=+-0.05, f=0.1, f=-1/298.257" : "3 parameter sets: WGS84/0.9996, WGS84/1, sphere a=1; + series only on the reduced sub-lattice lat +-{0,10,45,80,89.9,90} x dlon +-{0,1e-9,3,10,35,60,120,179,180} x lon0 {0,177}: f=+0.01, f=-1/298.257");
   ctx.bound("lat", fmti((long long)lats.size()) + (T ? " latitudes: +-{0, 1e-9, 1e-6, 1e-3, 0.1, 0.5, 1, every 2 deg to 88, both sides of 3.35, 3.68, 6.5, 7.36, 12.6, 12.9, 25.4, 49.6, 89.18, 15, 89, 89.5, 89.9, 89.99 .. 90-1e-9, 90}"
                                                       : " latitudes: +-{0, 1e-9, 3, 7, 10, 45, 80, 89, 89.9, 90-1e-9, 90}"));
   ctx.bound("dlon", fmti((long long)pick(DLONP, T).size() * 2 + 10) + (T ? " longitude offsets: +-{0, 1e-9, 1e-6, 1e-3, 0.1, 0.5, 1, every 2 deg to 178, 34.99/35/35.01 and 144.99/145/145.01, 89.5 .. 90-1e-9, 90, 90+1e-9 .. 90.5, 179.5 .. 180-1e-9, 180, "
                                                                             "(1-e)90 and its +-1e-9, +-1e-6, +-1e-3, +-0.1 neighbours and their far-side images, (1-2e)90+-0.5}"
                                                                           : " longitude offsets: +-{0, 1e-9, 3, 10, 35, 60, 75, 80, 85, 89, 90, 90+1e-9, 120, 150, 179, 180, (1-e)90 and its +-1e-9 neighbours, (1-2e)90+-0.5}"));
-  ctx.bound("lon0", T ? "central meridians {0, 177, -183, -3}; each also as lon0+360 and lon-+360 where the shift is exact" : "central meridians {0, 177, -183}; each also as lon0+360 and lon-+360 where the shift is exact");
+  ctx.bound("lon0", "central meridians {0, 177, -183}; each also as lon0+360 and lon-+360 where the shift is exact");
   ctx.bound("impl", "series, exact, exact+extendp, TransverseMercator(exact=true), TransverseMercator(exact=true,extendp), and the two static UTM() objects on WGS84/0.9996");
   ctx.bound("oracle", "tm_ode long double, Taylor orders 28 (tol 1e-20) and 20 (tol 1e-19), start latitudes 30/50 deg on the via-north path; used where both runs agree to 5 % of the position tolerance; sphere: closed form");
 
@@ -243,12 +243,21 @@ int main(int argc, char** argv) {
     const Par& P = PARS[pi];
     if (!T && !P.quick) continue;
     Geo G(P);
+    // extended domain south of the equator: beyond |sigma| ~ 6e11 every digit is lost; for nearly spherical ellipsoids (e^2 < 2e-3) Lee's constants diverge
+    // (documented: 'cannot be applied directly to the case of a sphere') and the loss model is not applicable: there only the known-finding class applies
+    auto LOST = [&G](ld sg) { return 16e-15L * sg >= 0.01L || G.e2 < 2e-3L; };
     std::vector<Impl> impls = make_impls(P);
+    // quick tier, parameter sets with quick == 2 (f = 1/100 and a prolate ellipsoid): series implementation on a reduced sub-lattice, no reverse grid
+    const bool reduced = !T && P.quick == 2;
+    if (reduced) impls.resize(1);
+    std::vector<double> lats_p = lats, lon0_p = LON0;
+    if (reduced) { lats_p.clear(); for (double v : {0.0, 10.0, 45.0, 80.0, 89.9, 90.0}) { lats_p.push_back(v); lats_p.push_back(-v); } lon0_p = {0, 177}; }
     const ld ascale = G.a / WGS84_A;
     const ld VT = 10e-9L * ascale;                               // oracle validity is judged against the strictest position tolerance
     double e_lib = std::sqrt(P.f * (2 - P.f));                 // the library's own double value of e (to hit its lon == 90(1-e) branch)
     std::vector<double> dl = pick(DLONP, T);
-    if (P.f > 0) {
+    if (reduced) dl = {0, 1e-9, 3, 10, 35, 60, 120, 179, 180};
+    if (P.f > 0 && !reduced) {
       double lb = 90 * (1 - e_lib);
       dl.push_back(lb); dl.push_back(lb - 1e-9); dl.push_back(lb + 1e-9);
       if (T) for (double d : {1e-6, 1e-3, 0.1}) { dl.push_back(lb - d); dl.push_back(lb + d); dl.push_back(180 - lb - d); dl.push_back(180 - lb + d); }
@@ -262,16 +271,16 @@ int main(int argc, char** argv) {
 
     // ============================================================== subcheck: forward lattice
     ctx.sub(std::string("lattice/") + P.name);
-    for (size_t li = 0; li < lats.size(); ++li) {
+    for (size_t li = 0; li < lats_p.size(); ++li) {
       if (!ctx.take()) continue;
-      const double lat = lats[li];
+      const double lat = lats_p[li];
       const bool pole = std::fabs(lat) == 90;
       ld sphi, cphi; tm_ode::sincosd<ld>(lat, sphi, cphi);
       if (std::fabs(lat) > 45) { ld s2, c2; tm_ode::sincosd<ld>(lat > 0 ? 90 - lat : -90 - lat, s2, c2); cphi = fabsl(s2); }
       const ld Mr = G.Mrad(sphi), Pr = G.Prad(sphi, cphi);
       const ld merid = tm_ode::meridian_distance<ld>(G.e2, (ld)lat * DEGL) * G.a * G.k0;   // central-meridian northing
       std::map<uint64_t, Ora> cache_std, cache_ext;            // reference values shared by the central meridians (same exact longitude difference)
-      for (double lon0 : LON0) for (double dnom : dlons) {
+      for (double lon0 : lon0_p) for (double dnom : dlons) {
         const double lon = lon0 + dnom;
         const double dlon = eff_dlon(lon0, lon);
         const double ad = std::fabs(dlon);
@@ -318,7 +327,7 @@ int main(int argc, char** argv) {
             tol.pos = 10e-9L * ascale; tol.krel = 1.2e-13L;
             if (cmdist > (double)safe + 1e-6) { acc = false; band = "beyond (1-2e)90"; }
             else {
-              int b = cmdist <= 35 ? 0 : cmdist <= 50 ? 1 : cmdist <= 60 ? 2 : cmdist <= 70 ? 3 : 4;
+              int b = cmdist <= 3 ? 0 : cmdist <= 10 ? 1 : cmdist <= 20 ? 2 : cmdist <= 35 ? 3 : cmdist <= 50 ? 4 : cmdist <= 60 ? 5 : cmdist <= 70 ? 6 : 7;
               if (P.env[b] > 0) {
                 calibrated = true; band = "calibrated";
                 ld env = P.env[b];
@@ -338,7 +347,7 @@ int main(int argc, char** argv) {
           if (pole && acc) {
             ld sgn = lat > 0 ? 1 : -1;
             ld ey = sgn * G.Q * G.a * G.k0;
-            ld err = hypotl((ld)x, (ld)y - ey);
+            ld err = hypotl((ld)x, (ld)y - ey) / G.k0;              // scale at the pole is k0
             ctx.worst(cls + ".pole.pos/tol", (double)(err / tol.pos), where);
             if (err > tol.pos) FAIL("pole-position", "x=" + fx(x) + " y=" + fx(y) + " expected (0," + mc::fmtl(ey) + ")");
             ld ek = fabsl((ld)k / G.k0 - 1);
@@ -353,7 +362,7 @@ int main(int argc, char** argv) {
           if (dlon == 0 && !pole && acc) {
             if (!(x == 0)) FAIL("cm-easting-nonzero", "x=" + fx(x) + " on the central meridian");
             if (!(gam == 0)) FAIL("cm-convergence-nonzero", "gamma=" + fx(gam) + " on the central meridian");
-            ld ey = fabsl((ld)y - merid);
+            ld ey = fabsl((ld)y - merid) / G.k0;                     // ground distance (scale k0 on the central meridian)
             ctx.worst(cls + ".cm.y/tol", (double)(ey / tol.pos), where);
             if (ey > tol.pos) FAIL("cm-northing", "y=" + fx(y) + " expected k0*M=" + mc::fmtl(merid));
             ld ek = fabsl((ld)k / G.k0 - 1);
@@ -365,16 +374,16 @@ int main(int argc, char** argv) {
           const ld sig2 = R.valid ? hypotl(R.x, R.y) / (G.a * G.k0) : 0;              // |sigma|
           if (!pole && R.valid && acc) {
             ld ex = (ld)x - R.x, ey = R.yfree ? fabsl((ld)y) - fabsl(R.y) : (ld)y - R.y;
-            ld kk = R.k / G.k0;
+            ld kk = R.k;                                                                // full scale (incl. k0): ground distance = plane distance / k
             ld err = hypotl(ex, ey) / kk;                                               // ground distance
             ld eg = fabsl(angdiff((ld)gam, R.gamma)); if (R.yfree) eg = std::min(eg, fabsl(angdiff((ld)gam, -R.gamma)));
             ld ek = fabsl((ld)k / R.k - 1);
             ld cd = cond(R, Pr, tol.pos);
             ld tg = tol.gfloor + cd / DEGL, tk = tol.krel + cd;
             if (south_ext) {
-              // gross bound (never masked): 2 x 8 nm + the loss of Lee's formulation near the pole of sigma, a |sigma|^2 * 8e-15 (plane), |sigma| * 8e-15 (angle)
-              ld gross = tol.pos + 8e-15L * sig2 * sig2 * G.a / kk, grossa = 8e-15L * sig2;
-              if (16e-15L * sig2 >= 0.01L) { gross = grossa = INFINITY; ctx.count("extendp.south.total-precision-loss (|sigma| > 6e11): only the known-finding class applies"); }
+              // gross bound (never masked): 2 x 8 nm + the loss of Lee's formulation near the pole of sigma, a |sigma|^2 * 16e-15 (plane), |sigma| * 16e-15 (angle)
+              ld gross = tol.pos + 16e-15L * sig2 * sig2 * G.a * G.k0 / kk, grossa = 16e-15L * sig2;
+              if (LOST(sig2)) { gross = grossa = INFINITY; ctx.count("extendp.south.total-precision-loss (|sigma| > 6e11): only the known-finding class applies"); }
               ctx.worst("exact-extsouth.fwd.pos/gross", (double)(err / gross), where);
               ctx.worst("exact-extsouth.fwd.pos_m", (double)err, where);
               if (err > gross) FAIL("fwd-oracle", "extended domain: ground error " + mc::fmtl(err) + " m > gross bound " + mc::fmtl(gross));
@@ -383,7 +392,7 @@ int main(int argc, char** argv) {
               else if (eg > tg || ek > tk) FAIL("extendp-south-accuracy", "gamma err " + mc::fmtl(eg) + " deg (tol " + mc::fmtl(tg) + "), scale rel err " + mc::fmtl(ek) + " (tol " + mc::fmtl(tk) + ")", {{"region", "extendp lat<0"}, {"quantity", "forward-gamma-k"}});
             } else {
               ctx.worst(cls + ".fwd.pos/tol", (double)(err / tol.pos), where);
-              if (calibrated || I.series) ctx.worst(std::string("series-envelope.") + P.name + (cmdist <= 35 ? ".<=35" : cmdist <= 50 ? ".<=50" : cmdist <= 60 ? ".<=60" : cmdist <= 70 ? ".<=70" : ".<=safe") + ".pos_m(a=WGS84)", (double)(err / ascale), where);
+              if (calibrated || I.series) ctx.worst(std::string("series-envelope.") + P.name + (cmdist <= 3 ? ".b0<=3" : cmdist <= 10 ? ".b1<=10" : cmdist <= 20 ? ".b2<=20" : cmdist <= 35 ? ".b3<=35" : cmdist <= 50 ? ".b4<=50" : cmdist <= 60 ? ".b5<=60" : cmdist <= 70 ? ".b6<=70" : ".b7<=safe") + ".pos_m(a=WGS84)", (double)(err / ascale), where);
               if (err > tol.pos) FAIL(calibrated ? "fwd-oracle-envelope" : "fwd-oracle", "ground error " + mc::fmtl(err) + " m > " + mc::fmtl(tol.pos) + " (x=" + fx(x) + " y=" + fx(y) + " oracle " + mc::fmtl(R.x) + "," + mc::fmtl(R.y) + ")");
               ctx.worst(cls + ".fwd.gamma/tol", (double)(eg / tg), where);
               if (!calibrated) ctx.worst(cls + ".fwd.gamma-excess-over-cond_deg", (double)(eg - cd / DEGL), where);
@@ -397,7 +406,7 @@ int main(int argc, char** argv) {
           // ---- series <-> exact within 35 degrees
           if (I.series && !pole && P.exact && P.series_doc && cmdist <= 35 && ii == 0) {
             double x2, y2, g2, k2; impls[1].fwd(lon0, lat, lon, x2, y2, g2, k2);
-            ld kk = (R.valid ? R.k : (ld)k2) / G.k0;
+            ld kk = (R.valid ? R.k : (ld)k2);
             ld err = hypotl((ld)x - x2, (ld)y - y2) / kk;
             ctx.worst("series-vs-exact.pos/tol", (double)(err / (26e-9L * ascale)), where);
             if (err > 26e-9L * ascale) FAIL("series-vs-exact", "ground distance " + mc::fmtl(err));
@@ -411,15 +420,15 @@ int main(int argc, char** argv) {
             ld dN = ((ld)la2 - (ld)lat) * DEGL * Mr;
             ld dE = pole ? 0 : angdiff(angdiff((ld)lo2, (ld)lon0), (ld)dlon) * DEGL * Pr;
             ld err = hypotl(dN, dE);
-            ld kk = (R.valid ? R.k : (ld)k) / G.k0;
+            ld kk = (R.valid ? R.k : (ld)k);
             ld trt = tol.pos + 4 * 1.1e-16L * hypotl((ld)x, (ld)y) / kk;             // + 4 ulp of the plane coordinates mapped back to the ground
             ld cd = R.valid ? cond(R, Pr, tol.pos) : (ld)0;
             if (south_ext) {
               ld s2 = R.valid ? sig2 : hypotl((ld)x, (ld)y) / (G.a * G.k0);
-              ld gross = trt + 16e-15L * s2 * s2 * G.a / kk;
-              if (16e-15L * s2 >= 0.01L) gross = INFINITY;
+              ld gross = trt + 16e-15L * s2 * s2 * G.a * G.k0 / kk;
+              if (LOST(s2)) gross = INFINITY;
               ctx.worst("exact-extsouth.roundtrip_m", (double)err, where);
-              if (!(err <= gross)) FAIL("roundtrip", "extended domain: reverse(forward) = lat " + fx(la2) + " lon " + fx(lo2) + ", ground error " + mc::fmtl(err) + " m > gross bound " + mc::fmtl(gross));
+              if (!(err <= gross) && gross < INFINITY) FAIL("roundtrip", "extended domain: reverse(forward) = lat " + fx(la2) + " lon " + fx(lo2) + ", ground error " + mc::fmtl(err) + " m > gross bound " + mc::fmtl(gross));
               else if (!(err <= trt)) FAIL("extendp-south-accuracy", "round trip ground error " + mc::fmtl(err) + " m > " + mc::fmtl(trt), {{"region", "extendp lat<0"}, {"quantity", "roundtrip"}});
             } else {
               ctx.worst(cls + ".roundtrip/tol", (double)(err / trt), where);
@@ -441,18 +450,18 @@ int main(int argc, char** argv) {
             double X = (double)R.x, Y = (double)R.y, la2, lo2, g2, k2;
             I.rev(lon0, X, Y, la2, lo2, g2, k2);
             ld dN = ((ld)la2 - (ld)lat) * DEGL * Mr, dE = angdiff(angdiff((ld)lo2, (ld)lon0), (ld)dlon) * DEGL * Pr;
-            ld kk = R.k / G.k0;
+            ld kk = R.k;
             ld err = hypotl(dN, dE), trt = tol.pos + 4 * 1.1e-16L * hypotl(R.x, R.y) / kk;
             ld eg = fabsl(angdiff((ld)g2, R.gamma)), ek = fabsl((ld)k2 / R.k - 1);
             ld cd = cond(R, Pr, tol.pos), tg = tol.gfloor + cd / DEGL, tk = tol.krel + cd;
             if (south_ext) {
-              ld gross = trt + 16e-15L * sig2 * sig2 * G.a / kk, grossa = 16e-15L * sig2;
-              if (16e-15L * sig2 >= 0.01L) gross = grossa = INFINITY;
+              ld gross = trt + 16e-15L * sig2 * sig2 * G.a * G.k0 / kk, grossa = 16e-15L * sig2;
+              if (LOST(sig2)) gross = grossa = INFINITY;
               ctx.worst("exact-extsouth.rev-oracle.pos_m", (double)err, where);
-              if (!(err <= gross)) FAIL("rev-oracle", "extended domain: Reverse(oracle image) = lat " + fx(la2) + " lon " + fx(lo2) + ", ground error " + mc::fmtl(err) + " m > gross bound " + mc::fmtl(gross));
+              if (!(err <= gross) && gross < INFINITY) FAIL("rev-oracle", "extended domain: Reverse(oracle image) = lat " + fx(la2) + " lon " + fx(lo2) + ", ground error " + mc::fmtl(err) + " m > gross bound " + mc::fmtl(gross));
               else if (!(err <= trt)) FAIL("extendp-south-accuracy", "Reverse(oracle image) ground error " + mc::fmtl(err) + " m > " + mc::fmtl(trt), {{"region", "extendp lat<0"}, {"quantity", "reverse"}});
-              if (eg * DEGL > tg * DEGL + grossa || ek > tk + grossa) FAIL("rev-oracle-convergence", "extended domain: gamma err " + mc::fmtl(eg) + " scale rel err " + mc::fmtl(ek) + " beyond gross bound");
-              else if (eg > tg || ek > tk) FAIL("extendp-south-accuracy", "Reverse gamma err " + mc::fmtl(eg) + " deg, scale rel err " + mc::fmtl(ek), {{"region", "extendp lat<0"}, {"quantity", "reverse-gamma-k"}});
+              if ((eg * DEGL > tg * DEGL + grossa || ek > tk + grossa) && grossa < INFINITY) FAIL("rev-oracle-convergence", "extended domain: gamma err " + mc::fmtl(eg) + " scale rel err " + mc::fmtl(ek) + " beyond gross bound");
+              else if (!(eg <= tg) || !(ek <= tk)) FAIL("extendp-south-accuracy", "Reverse gamma err " + mc::fmtl(eg) + " deg, scale rel err " + mc::fmtl(ek), {{"region", "extendp lat<0"}, {"quantity", "reverse-gamma-k"}});
             } else {
               ctx.worst(cls + ".rev-oracle.pos/tol", (double)(err / trt), where);
               if (!(err <= trt)) FAIL("rev-oracle", "Reverse(oracle image) = lat " + fx(la2) + " lon " + fx(lo2) + ", ground error " + mc::fmtl(err) + " m > " + mc::fmtl(trt), PRO(err));
@@ -509,7 +518,7 @@ int main(int argc, char** argv) {
 
     // ============================================================== subcheck: reverse on a grid of (x, y) incl. the far side
     ctx.sub(std::string("reverse-grid/") + P.name);
-    {
+    if (!reduced) {
       std::vector<ld> xis = {0, 1e-10L, 0.3L, 1, G.Q - 1e-9L, G.Q, G.Q + 1e-9L, 2, 2 * G.Q - 0.3L, 2 * G.Q - 1e-9L};
       if (T) { xis.push_back(0.01L); xis.push_back(0.7L); xis.push_back(1.3L); xis.push_back(2.5L); xis.push_back(G.Q * 0.25L); }
       if (T) {   // deep tier: 0.1 steps up to 2Q, both sides of the sigmainv0 thresholds 0.25 E (and -0.25 E through the sign axis), small values, the far-side mirror of small values
@@ -559,21 +568,21 @@ int main(int argc, char** argv) {
           bool matched = false;
           if (R.valid) {
             ld sph, cph; tm_ode::sincosd<ld>(la, sph, cph); if (std::fabs(la) > 45) { ld s2, c2; tm_ode::sincosd<ld>(la > 0 ? 90 - la : -90 - la, s2, c2); cph = fabsl(s2); }
-            ld Pr = G.Prad(sph, cph), kk = R.k / G.k0;
+            ld Pr = G.Prad(sph, cph), kk = R.k;
             ld ey = R.yfree ? fabsl((ld)Y) - fabsl(R.y) : (ld)Y - R.y;
             ld err = hypotl((ld)X - R.x, ey) / kk;
             ld t = tolp + 4 * 1.1e-16L * hypotl((ld)X, (ld)Y) / kk;
             ld sig2 = hypotl((ld)X, (ld)Y) / (G.a * G.k0);
             ld eg = fabsl(angdiff((ld)g, R.gamma)); if (R.yfree) eg = std::min(eg, fabsl(angdiff((ld)g, -R.gamma)));
             ld ek = fabsl((ld)k / R.k - 1), cd = cond(R, Pr, tolp), tg = 2e-13L + cd / DEGL, tk = 1.4e-13L + cd;
-            if (ext_south && std::signbit(la)) {
-              ld gross = t + 16e-15L * sig2 * sig2 * G.a / kk, grossa = 16e-15L * sig2;
-              if (16e-15L * sig2 >= 0.01L) gross = grossa = INFINITY;
+            if (I.extendp && std::signbit(la)) {        // the point lies in the extended domain south of the equator (also for small y >= 0 east of the branch easting, below the image of the equator)
+              ld gross = t + 16e-15L * sig2 * sig2 * G.a * G.k0 / kk, grossa = 16e-15L * sig2;
+              if (LOST(sig2)) gross = grossa = INFINITY;
               ctx.worst("exact-extsouth.revgrid.pos_m", (double)err, where);
-              if (!(err <= gross)) FAIL("revgrid-oracle", "extended domain: Reverse -> lat " + fx(la) + " lon " + fx(lo) + " whose oracle image is " + mc::fmtl(err) + " m (ground) away > gross bound " + mc::fmtl(gross));
+              if (!(err <= gross) && gross < INFINITY) FAIL("revgrid-oracle", "extended domain: Reverse -> lat " + fx(la) + " lon " + fx(lo) + " whose oracle image is " + mc::fmtl(err) + " m (ground) away > gross bound " + mc::fmtl(gross));
               else if (!(err <= t)) FAIL("extendp-south-accuracy", "Reverse -> lat " + fx(la) + " lon " + fx(lo) + " whose oracle image is " + mc::fmtl(err) + " m (ground) away", {{"region", "extendp lat<0"}, {"quantity", "reverse-grid"}});
               if (eg * DEGL > tg * DEGL + grossa || ek > tk + grossa) FAIL("revgrid-convergence", "extended domain: gamma err " + mc::fmtl(eg) + " scale rel err " + mc::fmtl(ek) + " beyond gross bound");
-              else if (eg > tg || ek > tk) FAIL("extendp-south-accuracy", "Reverse gamma err " + mc::fmtl(eg) + " deg, scale rel err " + mc::fmtl(ek), {{"region", "extendp lat<0"}, {"quantity", "reverse-grid-gamma-k"}});
+              else if (!(eg <= tg) || !(ek <= tk)) FAIL("extendp-south-accuracy", "Reverse gamma err " + mc::fmtl(eg) + " deg, scale rel err " + mc::fmtl(ek), {{"region", "extendp lat<0"}, {"quantity", "reverse-grid-gamma-k"}});
               matched = true;
             } else {
               matched = err <= t;
@@ -591,7 +600,7 @@ int main(int argc, char** argv) {
           } else {
             // no oracle (within 1e-9 deg of the branch point): forward(reverse) must reproduce the point when it lies west of the branch easting
             double x2, y2, g2, k2; I.fwd(lon0, la, lo, x2, y2, g2, k2);
-            ld kk = (ld)k / G.k0;
+            ld kk = (ld)k;
             ld err = hypotl((ld)X - x2, (ld)Y - y2) / kk;
             ld t = tolp + 4 * 1.1e-16L * hypotl((ld)X, (ld)Y) / kk;
             if (west) {
